@@ -47,6 +47,7 @@ func checkC17(ctx *Ctx, r *Report) {
 	c17FifthRound(ctx, r)
 	c17SixthRound(ctx, r)
 	c17SeventhRound(ctx, r)
+	c17EighthRound(ctx, r)
 	c20UnionSingleMember(ctx, r) // an entry holding two rules applied one of them
 	c16DismissalNeedsLostOptions(ctx, r)
 	c18LiteralsShareSlices(ctx, r)
@@ -2673,4 +2674,64 @@ func c17SeventhRound(ctx *Ctx, r *Report) {
 	}
 	r.Count("hunted clauses of the veneers (7th round)", n)
 	r.Floor("hunted clauses of the veneers (7th round)", 4)
+}
+
+// c17EighthRound — sixth hunt of C17:
+//   - an option rule that keeps the name of an option and changes its arguments breaks the factories that call it as
+//     surely as one that removes it: in factoriesFollowOption the same-name case compares the arguments of the rewritten
+//     option with those of the original one before it answers "nothing to do";
+//   - the actions that make an argument of an option go away (array_to_append, map_to_index, unfold_boolean,
+//     struct_fields_as_arguments) count the uses of that argument among all the assignments of the option first.
+func c17EighthRound(ctx *Ctx, r *Report) {
+	n := 0
+	if fn := ctx.LookupMethod("internal/veneers/rewrite", "Rewriter", "factoriesFollowOption"); fn == nil {
+		r.Undecided("anchor lost: rewrite.Rewriter.factoriesFollowOption")
+	} else if fd, _ := ctx.DeclOf(fn); fd != nil {
+		compares := false
+		ast.Inspect(fd.Body, func(m ast.Node) bool {
+			c, ok := m.(*ast.CallExpr)
+			if !ok || len(c.Args) != 2 {
+				return true
+			}
+			a, b := exprString(c.Args[0]), exprString(c.Args[1])
+			if strings.HasSuffix(a, ".Args") && strings.HasSuffix(b, ".Args") && a != b {
+				compares = true
+			}
+			return true
+		})
+		n++
+		r.Check(compares, "effects/factories-follow-option-rules", "rewrite.factoriesFollowOption meets an option that keeps its name", fd.Pos(), "its arguments are compared with those the factories pass",
+			"factoriesFollowOption answers `nothing to do` as soon as a rewritten option keeps the name of the original one: struct_fields_as_arguments turns time(time) into time(from, to) and the factory InRange keeps calling time(<TimeRange>) — `builder.Time(time)` does not compile (same with map_to_index and array_to_append)")
+	}
+	p := ctx.Pkg("internal/veneers/option")
+	if p == nil {
+		r.Undecided("anchor lost: internal/veneers/option")
+		return
+	}
+	info := p.TypesInfo
+	removers := 0
+	for _, name := range []string{"ArrayToAppendAction", "MapToIndexAction", "UnfoldBooleanAction", "StructFieldsAsArgumentsAction"} {
+		fd, _ := ctx.DeclOf(ctx.LookupFunc("internal/veneers/option", name))
+		if fd == nil {
+			r.Undecided("anchor lost: option.%s", name)
+			continue
+		}
+		removers++
+		counts := false
+		ast.Inspect(fd.Body, func(m ast.Node) bool {
+			if c, ok := m.(*ast.CallExpr); ok {
+				if f := callee(info, c); f != nil && (f.Name() == "countArgumentUses" || f.Name() == "assignmentOfArgument") {
+					counts = true
+				}
+			}
+			return true
+		})
+		n++
+		r.Check(counts, "effects/removed-arguments-unused", "option."+name+" makes an argument of the option go away", fd.Pos(), "after counting its uses among all the assignments of the option",
+			"option."+name+" removes the argument it unfolds and copies the other assignments of the option as they are: after `add_assignment` made the option assign its argument a second time (locked = <argument editable>), unfold_boolean gives editable() { editable = true; locked = editable } — an argument declared nowhere")
+	}
+	r.Count("actions removing an argument", removers)
+	r.Floor("actions removing an argument", 4)
+	r.Count("hunted clauses of the veneer rules (8th round)", n)
+	r.Floor("hunted clauses of the veneer rules (8th round)", 5)
 }
